@@ -137,6 +137,10 @@ func checkRuns(r *hlib.Rec, labels map[string]string, scenario string, runs []mi
 				} else {
 					passes++
 				}
+				if alternate && uint64(id) == mx.iters {
+					// the handle's exported name field is the body's to scribble on: the run's series are named after the scenario
+					t.Scenario = "renamed-by-the-last-body"
+				}
 			}
 		}
 		res := hlib.RunOnce(rs, -1, 0, 60*time.Second)
@@ -202,9 +206,9 @@ func checkLabels(r *hlib.Rec, got, want map[string]string, scenario, family, inp
 		r.Fail("C16/labels", family+"-test-label", fmt.Sprintf("%s: series has test=%q, scenario is %q", at, got["test"], scenario), input)
 	}
 	for k, v := range want {
-		if got[k] != v {
+		if gv, ok := got[k]; !ok || gv != v {
 			kind := "missing"
-			if got[k] != "" {
+			if ok {
 				kind = "paired-with-another-value"
 			}
 			r.Fail("C16/labels", family+"-"+kind, fmt.Sprintf("%s: static label %s=%q, configured %q (series %v)", at, k, got[k], v, got), input)
@@ -219,6 +223,9 @@ func suite(reps int, maxRuns int) hlib.Suite {
 			for i, k := range keyAlpha {
 				if mask&(1<<i) != 0 {
 					labels[k] = "v_" + k
+					if i == 1 && mask&1 != 0 {
+						labels[k] = "" // a configured label whose value is empty is still a label of every series
+					}
 				}
 			}
 			if len(labels) > 3 {
